@@ -100,6 +100,10 @@ def ensure_makefile():
         rc, out = sh("coq_makefile -f _CoqProject %s -o Makefile.coq" % " ".join(vfiles), cwd=COQ, timeout=120)
         if rc != 0:
             raise BuildBroken("build", "coq_makefile failed", out)
+        try:
+            os.remove(os.path.join(COQ, ".Makefile.coq.d"))
+        except OSError:
+            pass
         open(listing, "w").write(new)
 
 
